@@ -169,12 +169,18 @@ Definition cell_add (k : kind) (ver : Z) (v : Z) (c : cell) : cell :=
          else if cmp_of k (cmp_upd_lhs v (fst c)) (cmp_upd_rhs v (fst c)) then (v, snd c) else c
   end.
 
-(* ConcurrentComparer::value(T&) over the visited slots -> (has_result, result) *)
+(* ConcurrentComparer::value(T&) over the visited slots -> (has_result, result).  The inner condition is the
+   regenerated boolean structure read_accept(has_result, outcome of _comparer(lhs, rhs) as 0/1, 0): the translator
+   prints `_comparer(a, b)` as `a - b` (non-zero = true), so passing (outcome, 0) plugs the comparer's verdict in. *)
+Definition b2z (b : bool) : Z := if b then 1%Z else 0%Z.
+Definition cmp_visit (k : kind) (ver : Z) (acc : bool * Z) (c : cell) : bool * Z :=
+  if read_version_match (snd c) ver
+  then if read_accept (b2z (fst acc))
+                      (b2z (cmp_of k (read_cmp_lhs (fst c) (snd acc)) (read_cmp_rhs (fst c) (snd acc)))) 0%Z
+       then (true, fst c) else acc
+  else acc.
 Definition cmp_fold (k : kind) (ver : Z) (cells : list cell) : bool * Z :=
-  fold_left (fun (acc : bool * Z) (c : cell) =>
-               if read_version_match (snd c) ver
-               then if cmp_of k (read_cmp_lhs (fst c) (snd acc)) (read_cmp_rhs (fst c) (snd acc)) then (true, fst c) else acc
-               else acc) cells (false, extremum k).
+  fold_left (cmp_visit k ver) cells (false, extremum k).
 
 Definition cells_of (x : st) (i : inst) : list cell :=
   map (fun k => cmem x (i_sto i) k (i_off i)) (seq 0 (each_bound x (i_sto i))).
@@ -211,7 +217,9 @@ Definition new_inst (cf : cfg) (x : st) (c : nat) : st * nat :=
 
 Definition swap_inst (x : st) (c d : nat) : st :=
   let hc := chnd x c in let hd := chnd x d in
-  let x1 := set_chnd x (upd (upd (chnd x) c hd) d hc) in
+  let x0 := set_chnd x (upd (upd (chnd x) c hd) d hc) in
+  (* the counter object (with its _version) travels with the instance; only adders are movable in C++ *)
+  let x1 := set_cver x0 (upd (upd (cver x0) c (cver x0 d)) d (cver x0 c)) in
   set_ghost x1 (upd (upd (g_sum x1) c (g_sum x1 d)) d (g_sum x1 c))
                (upd (upd (g_cnt x1) c (g_cnt x1 d)) d (g_cnt x1 c))
                (upd (upd (g_per x1) c (g_per x1 d)) d (g_per x1 c)).
